@@ -78,6 +78,17 @@ Theorem C07_compute_sequence_dynamics :
 Proof. exact (@compute_sequence_finite_spec). Qed.
 Print Assumptions C07_compute_sequence_dynamics.
 
+(* operations on one LQ object (update_values / stationary_values / compute_sequence in any order): a
+   compute_sequence on a finite-horizon object restarts from (Rf, 0) whatever earlier calls left on the object *)
+Theorem C07_compute_sequence_resets_state :
+  forall (T : Type) (NT : Num T) (n k j : nat) (beta : T) (Qm Rm A B C N Rf : list (list T))
+         tol max_iter gamma sb (st st' : lq_state) Teff x0 ws,
+  (1 <= Teff)%nat ->
+  lq_apply n k j beta Qm Rm A B C N (Some Rf) tol max_iter gamma sb st (OpSequence Teff x0 ws)
+  = lq_apply n k j beta Qm Rm A B C N (Some Rf) tol max_iter gamma sb st' (OpSequence Teff x0 ws).
+Proof. exact (@lq_sequence_resets). Qed.
+Print Assumptions C07_compute_sequence_resets_state.
+
 (* the simulation loop itself (also the infinite-horizon branch, policies = [F]*T) *)
 Theorem C07_lq_simulate_dynamics :
   forall (T : Type) (NT : Num T) (n k j : nat) (A B C : list (list T)) steps policies ws x xs us,
